@@ -26,8 +26,8 @@ MUTANTS = [
      "        if self.__history is not None:\n            self.__history.add_response(response)\n",
      "        if self.__history is not None and response:\n            self.__history.add_response(response)\n",
      "History does not record the (empty) response of a notification"),
-    ("c01-kwargs-as-list", "C01", S, "                if isinstance(params, utils.ListType):\n                    return func(*params)\n                else:\n                    return func(**params)",
-     "                if isinstance(params, utils.ListType) or not params:\n                    return func(*params)\n                else:\n                    return func(**params)",
+    ("c01-kwargs-as-list", "C01", S, "                if isinstance(params, (utils.ListType, utils.TupleType)):\n                    return func(*params)\n                else:\n                    return func(**params)",
+     "                if isinstance(params, (utils.ListType, utils.TupleType)) or not params:\n                    return func(*params)\n                else:\n                    return func(**params)",
      "empty keyword map is splatted positionally (harmless) - control: expected NOT to break C01"),
     ("c02-parse-guard-narrowed", "C02", S, "            request = jsonrpclib.loads(data, self.json_config)\n        except Exception as ex:",
      "            request = jsonrpclib.loads(data, self.json_config)\n        except ValueError as ex:",
@@ -156,6 +156,11 @@ MUTANTS = [
     ("c07-enum-value-raw-reverted", "C07", K, "            [dump(obj.value, serialize_method, ignore_attribute, ignore, config)]", "            [obj.value]", "enum values are emitted raw again"),
     ("c20-empty-handler-table-detached-reverted", "C20", C, "        if serialize_handlers is None:\n            serialize_handlers = {}\n        self.serialize_handlers = serialize_handlers", "        self.serialize_handlers = serialize_handlers or {}", "an empty handler table given by the caller is replaced again"),
     ("c06-multicall-slice-reverted", "C06", J, "        if isinstance(i, slice):\n            return [self.__get_result(item) for item in self.results[i]]\n\n", "", "a slice of MultiCall results raises TypeError again"),
+    ("c18-empty-ctor-headers-detached-reverted", "C18", J, "        self.__transport.push_headers({} if headers is None else headers)", "        self.__transport.push_headers(headers or {})", "an empty constructor headers dictionary is replaced again"),
+    ("c05-tuple-params-reverted", "C05", S, "                if isinstance(params, (utils.ListType, utils.TupleType)):\n                    return func(*params)", "                if isinstance(params, utils.ListType):\n                    return func(*params)", "tuple params go through func(**params) again"),
+    ("c04-tuple-params-reverted", "C04", S, "                if isinstance(params, (utils.ListType, utils.TupleType)):\n                    return func(*params)", "                if isinstance(params, utils.ListType):\n                    return func(*params)", "a notification with tuple params is never executed again"),
+    ("c03-unwritable-id-reverted", "C03", S, "                rpcid=self.__writable_id(request[\"id\"]),", "                rpcid=request[\"id\"],", "the error about an unwritable id carries that id again"),
+    ("c13-unwritable-id-reverted", "C13", S, "                rpcid=self.__writable_id(request[\"id\"]),", "                rpcid=request[\"id\"],", "the error about an unwritable id carries that id again (server-form fallback)"),
     ("c17-cgi-byte-read-reverted", "C17", S, "            request_text = utils.from_bytes(reader.read(length))", "            request_text = sys.stdin.read(length)", "the CGI handler reads characters again"),
     ("c19-2xx-accepted", "C19", J, "            if response.status == 200:", "            if response.status < 300:", "201/202 replies parsed as results"),
     ("c20-ignore-not-propagated", "C20", K, "                attrs[attr_name] = dump(\n                    attr_value,\n                    serialize_method,\n                    ignore_attribute,\n                    ignore,\n                    config,\n                )",
